@@ -28,7 +28,14 @@ theorem C07_roundtrip (P : Prims) (hP : P.Lawful)
     `"saltpack detached signature\0" ‖ hash(hash(header bytes) ‖ message)`, with
     a header that says "saltpack", an admitted version and detached mode.  So
     the signer signed exactly this message under exactly this header in detached
-    mode — or the signature scheme / the hash is broken (C06's `Break`). -/
+    mode — or the signature scheme / the hash is broken IN THIS VERY
+    VERIFICATION: `C07_sound_or_break` below makes that precise with the
+    anchored `DetachedBreakIn P k H hb msg sg` (a forgery is the signature `sg`
+    that was accepted here, on the input computed here; a collision is between
+    the string `P.hash hb ++ msg` hashed here and the string an honest signing
+    event hashed).  This is the detached counterpart of the anchored
+    `AuthSig.BreakIn` of C06 (`C06_break_def`); the un-anchored `Break` that
+    C06 once had was provable outright and is gone. -/
 theorem C07_sound (P : Prims) (valid : Validator) (kr : Keyring)
     (hr : HeaderRead SigHeader) (sr : Sign.SigRead) (msg k : Bytes)
     (hok : Sign.verifyDetached P valid kr hr sr msg = .ok k) :
@@ -37,6 +44,88 @@ theorem C07_sound (P : Prims) (valid : Validator) (kr : Keyring)
       kr.lookupSigningPublicKey h.senderPublic = some k ∧
       P.verify k (Gen.c_sp_signatureDetachedString ++ P.hash (P.hash hb ++ msg)) sg = true :=
   Proofs.detached_sound P valid kr hr sr msg k hok
+
+/-! ## what is signed determines header hash and message -/
+
+/-- **Unique decomposition of the hashed string**: header hash (64 bytes) ‖
+    message determines both parts. -/
+theorem C07_input_unique (hh hh' m m' : Bytes) (h1 : hh.length = 64) (h2 : hh'.length = 64)
+    (h : hh ++ m = hh' ++ m') : hh = hh' ∧ m = m' :=
+  List.append_inj h (by omega)
+
+/-- the detached signature input is `domain ‖ hash(header hash ‖ message)`: two
+    inputs coincide exactly when those hashes coincide (the domain is a fixed
+    prefix) … -/
+theorem C07_detached_input_eq_iff (P : Prims) (hh hh' m m' : Bytes) :
+    detachedSignatureInput P hh m = detachedSignatureInput P hh' m' ↔
+      P.hash (hh ++ m) = P.hash (hh' ++ m') := by
+  unfold detachedSignatureInput detachedSignatureInputFromHash
+  exact ⟨List.append_cancel_left, fun h => by rw [h]⟩
+
+/-- … so equal detached inputs mean equal (header hash, message) — or the two
+    explicit strings `hh ++ m ≠ hh' ++ m'` are a hash collision.  (Uniqueness is
+    of the HASHED string; the signed string only contains its hash.) -/
+theorem C07_detached_input_unique (P : Prims) (hh hh' m m' : Bytes)
+    (h1 : hh.length = 64) (h2 : hh'.length = 64)
+    (h : detachedSignatureInput P hh m = detachedSignatureInput P hh' m') :
+    (hh = hh' ∧ m = m') ∨ (hh ++ m ≠ hh' ++ m' ∧ P.hash (hh ++ m) = P.hash (hh' ++ m')) := by
+  have hh_eq := (C07_detached_input_eq_iff P hh hh' m m').1 h
+  by_cases he : hh ++ m = hh' ++ m'
+  · exact Or.inl (C07_input_unique hh hh' m m' h1 h2 he)
+  · exact Or.inr ⟨he, hh_eq⟩
+
+/-! ## soundness as a reduction, with an ANCHORED break -/
+
+/-- an honest detached signing event of the key's owner: header hash and message -/
+structure DetachedEvent where
+  headerHash : Bytes
+  msg : Bytes
+
+/-- every input the honest owner of the key signed in detached mode -/
+def HonestlySignedDetached (P : Prims) (H : List DetachedEvent) (inp : Bytes) : Prop :=
+  ∃ e ∈ H, inp = detachedSignatureInput P e.headerHash e.msg
+
+/-- **The break a detached verification of (`hb`, `msg`, `sg`) under key `k` can
+    exhibit** — anchored to that verification:
+    * forgery: THE signature `sg` verifies under `k` on THE input computed from
+      `hb` and `msg`, and the owner of `k` never signed that input; or
+    * collision: THE string `P.hash hb ++ msg` hashed in this verification and
+      the string `e.headerHash ++ e.msg` of an honest event are different
+      strings with the same hash. -/
+def DetachedBreakIn (P : Prims) (k : Bytes) (H : List DetachedEvent) (hb msg sg : Bytes) : Prop :=
+  (P.verify k (detachedSignatureInput P (P.hash hb) msg) sg = true ∧
+      ¬ HonestlySignedDetached P H (detachedSignatureInput P (P.hash hb) msg)) ∨
+  (∃ e ∈ H, P.hash hb ++ msg ≠ e.headerHash ++ e.msg ∧
+      P.hash (P.hash hb ++ msg) = P.hash (e.headerHash ++ e.msg))
+
+/-- **Soundness, as a reduction** (`H`: everything the owner of the returned key
+    ever signed in detached mode, header hashes 64 bytes): a successful
+    verification means the owner signed exactly this message under exactly this
+    header hash — or `DetachedBreakIn` for this very (header, message,
+    signature). -/
+theorem C07_sound_or_break (P : Prims) (hP : P.Lawful) (valid : Validator) (kr : Keyring)
+    (hr : HeaderRead SigHeader) (sr : Sign.SigRead) (msg k : Bytes)
+    (H : List DetachedEvent) (hlen : ∀ e ∈ H, e.headerHash.length = 64)
+    (hok : Sign.verifyDetached P valid kr hr sr msg = .ok k) :
+    ∃ hb h sg, hr = .ok hb h ∧ sr = .sig sg ∧ kr.lookupSigningPublicKey h.senderPublic = some k ∧
+      ((∃ e ∈ H, e.headerHash = P.hash hb ∧ e.msg = msg) ∨ DetachedBreakIn P k H hb msg sg) := by
+  obtain ⟨hb, h, sg, hhr, hsr, _, _, _, hk, hver⟩ := Proofs.detached_sound P valid kr hr sr msg k hok
+  refine ⟨hb, h, sg, hhr, hsr, hk, ?_⟩
+  by_cases hs : HonestlySignedDetached P H (detachedSignatureInput P (P.hash hb) msg)
+  · obtain ⟨e, he, hinp⟩ := hs
+    rcases C07_detached_input_unique P _ _ _ _ (hP.hash_len hb) (hlen e he) hinp with ⟨e1, e2⟩ | ⟨hne, heq⟩
+    · exact Or.inl ⟨e, he, e1.symm, e2.symm⟩
+    · exact Or.inr (Or.inr ⟨e, he, hne, heq⟩)
+  · exact Or.inr (Or.inl ⟨hver, hs⟩)
+
+/-- the break is not always true: it is FALSE whenever the history contains the
+    verified (header hash, message) and nothing else — for every `Prims` -/
+theorem C07_break_not_trivial (P : Prims) (k hb msg sg : Bytes) :
+    ¬ DetachedBreakIn P k [⟨P.hash hb, msg⟩] hb msg sg := by
+  rintro (⟨_, hnot⟩ | ⟨e, he, hne, _⟩)
+  · exact hnot ⟨_, List.mem_singleton.2 rfl, rfl⟩
+  · rw [List.mem_singleton.1 he] at hne
+    exact hne rfl
 
 /-- **Mode separation**: the three signature domain strings are pairwise
     distinct and none is a prefix of another, so an attached-mode signature, an
